@@ -13,6 +13,27 @@ CLAIMED = {
          'Trusted: clang 14 front end; the external-effect table for libc/libogg; type-based heap classes (one per record '
          'pointer field); 5 allocation sites are assumptions with reasons (arena storage, tables filled by the recursion).',
          'DESIGN.md 4/C18, 3.3 K1 K2 K3'),
+ 'C01': ('layout-skeleton extraction from the typed AST compared with the specification text (doc/*.tex) + evaluated constant tables + registry/stage-order rules',
+         'The readers of every header, codebook, floor, residue, mapping, mode and audio-packet prologue are reduced to their '
+         'bit-layout skeleton and compared with the width sequences of the specification sources; the dB table, the eight '
+         'window tables and the floor-1 range vector are compared after constant evaluation; registries and decode stage order '
+         'are checked. A changed width, dropped or swapped field, wrong table entry or reordered stage is a non-conforming '
+         'decoder for some legal stream that no test decodes. Sample values themselves are not decided.',
+         'Trusted: clang 14 front end; doc/*.tex as oracle; the width-phrase extraction of engine/spec.py (an unparsable section '
+         'is exit 2).', 'DESIGN.md 4/C01, 3.3 K8'),
+ 'C05': ('writer/reader layout-skeleton agreement over the typed AST (sets of width paths + field/offset roles), packet-producer completeness',
+         'Every packer is compared with its unpacker over all branch outcomes: equal width sequences, same struct field and '
+         'inverse affine offset on each aligned field, equal constants; the audio prologue and floor-1 packet head written by '
+         'the encoder equal what the decoder reads; all packet producers fill all six packet fields. Decides that encoder and '
+         'decoder implement one bit layout (with C01: the specified one); does not decide exact consumption of every packet '
+         'nor managed-mode bit budgets.',
+         'Trusted: clang 14 front end; libogg oggpack_write/read semantics; the value-preserving normalisations N2-N8.',
+         'DESIGN.md 4/C05, 3.3 K8'),
+ 'C16': ('layout agreement (K8) for the comment header, sibling-predicate comparison of the two query functions, call-graph reachability for locale-free folding',
+         'The comment header writer, reader and specification agree; vorbis_comment_query and vorbis_comment_query_count are '
+         'shown to apply the same match predicate over the same range (conditions controlling their match counters are equal '
+         'after expanding locals); no locale-dependent libc is reachable. Byte equality of round-tripped content is not decided.',
+         'Trusted: clang 14 front end; ISO C meaning of strlen/strcpy/strcat.', 'DESIGN.md 4/C16'),
 }
 
 NA = {
